@@ -324,3 +324,6 @@ REGISTRY["C07"]["partial_clauses"] = ["float rounding",
     "velocity similarity needs the background divided by the same factor (a non-zero background is not scaled by the flow) - stated so in the theorem"]
 REGISTRY["C20"]["theorems"] += T("Proofs.C20b", "BLDFM.C20", ["rescaled_tie_bounds", "rescaled_eq_strict_sum"])
 REGISTRY["C20"]["partial_clauses"] = [c for c in REGISTRY["C20"]["partial_clauses"] if "two-sided" not in c and "tie bound" not in c]
+for _p in ("C08",):
+    REGISTRY[_p]["theorems"] += T("Proofs.Bridge.Tables", "BLDFM.Bridge", ["call_table_single_vertical_profiles_else_config_met_get_step_met_index__get__z0___is_not_None",
+                                                                           "call_table_single_vertical_profiles_if_config_met_get_step_met_index__get__z0___is_not_None"], "bridge")
